@@ -80,7 +80,7 @@ class ConfigId:
 
     @classmethod
     def create_from_str(cls, configname: str) -> "ConfigId":
-        mobj = re.match(r"(\d{5})-(\d{4})-(\d{4})-(\d{2})( (.*))?$", configname)
+        mobj = re.match(r"([0-9]{5})-([0-9]{4})-([0-9]{4})-([0-9]{2})( (.*))?$", configname)
         if mobj:
             return cls(
                 customer=int(mobj.group(1)),
@@ -90,7 +90,7 @@ class ConfigId:
                 name=mobj.group(6),
             )
         else:
-            mobj = re.match(r"(.*) \(version (\d{2})\)$", configname)
+            mobj = re.match(r"(.*) \(version ([0-9]{2})\)$", configname)
             if mobj:
                 return cls(
                     customer=None,
